@@ -71,6 +71,58 @@ def _native_work(case):
     return out, n
 
 
+def _diff_work(chunk):
+    """Filters outside the interpreter spec: the spec has no async notion, so for them the relation itself is
+    checked - the same template must give the same text / error class in a sync and in an async environment."""
+    core.use_repo()
+    import jinja2
+    from markupsafe import Markup
+    from . import c15_scan as sc
+
+    class O:
+        x = sc.S1
+        def __str__(self): return sc.S1
+
+    def data():
+        rows = [{"k": "b", "n": 2}, {"k": "A", "n": 1}, {"n": 3}, {"k": "a", "n": 1}]
+        return dict(s=sc.S1, s2=sc.S2, L=[sc.S1, sc.S2, "q<q"], D={sc.S1: sc.S2, "k": sc.S1}, m=Markup("ok"), n=3, LL=[[sc.S1], [sc.S2, sc.S1]],
+                    url="http://a.example/?q=" + sc.S1, O=O(), loopdata=sc.S1, rows=rows, G=(x for x in [3, 1, 2]))
+    out = []
+    for auto in (False, True):
+        es = jinja2.Environment(autoescape=auto, extensions=["jinja2.ext.do", "jinja2.ext.loopcontrols"])
+        ea = jinja2.Environment(autoescape=auto, enable_async=True, extensions=["jinja2.ext.do", "jinja2.ext.loopcontrols"])
+        for p in chunk:
+            res = []
+            for env, how in ((es, "render"), (ea, "render"), (ea, "render_async")):
+                try:
+                    t = env.from_string(p["src"])
+                    r = t.render(**data()) if how == "render" else asyncio.run(t.render_async(**data()))
+                    res.append(("ok", r))
+                except Exception as e:  # noqa
+                    res.append(("err", type(e).__name__))
+            if "random" in p["src"] or "pprint" in p["src"] or __import__("re").search(r" at 0x[0-9a-f]+", str(res)):
+                continue
+            if res[1] != res[0] or res[2] != res[0]:
+                out.append({"src": p["src"], "tag": p["tag"], "auto": auto, "sync": res[0], "async_render": res[1], "render_async": res[2]})
+    return out, len(chunk) * 6
+
+
+# filters that return lazy (async) iterators in async mode, and filters documented to accept them
+LAZY_ASYNC = {"map", "select", "reject", "selectattr", "rejectattr"}
+ASYNC_AWARE = {"first", "groupby", "join", "list", "reject", "rejectattr", "select", "selectattr", "map", "sum", "slice",
+               "string", "default", "d", "safe", "e", "escape", "pprint"}
+
+EXTRA_DIFF = [
+    "{% for g in rows|groupby('k', default='NY') %}[{{ g.grouper }}:{{ g.list|map(attribute='n')|join(',') }}]{% endfor %}",
+    "{% for k, items in rows|groupby('k', default='zz', case_sensitive=true) %}[{{ k }}:{{ items|length }}]{% endfor %}",
+    "{{ rows|map(attribute='k', default='-')|unique|join(',') }}{{ rows|selectattr('k')|list|length }}{{ rows|rejectattr('k')|list|length }}",
+    "{{ rows|sum(attribute='n') }}{{ rows|map(attribute='n')|max }}{{ rows|sort(attribute='n,k', reverse=true)|map(attribute='n')|join }}",
+    "{{ G|list }}{{ L|slice(2, 'f')|list }}{{ L|batch(2, 'f')|list }}{{ L|first }}{{ L|last }}{{ L|map('length')|sum }}",
+    "{% for x in G %}{{ loop.last }}{{ loop.length }}{{ loop.revindex }}{{ x }},{% endfor %}",
+    "{% for x in L|select('string') %}{{ loop.nextitem }}{{ loop.length }}{{ loop.revindex0 }},{% endfor %}",
+]
+
+
 def run(ck):
     quick = ck.tier == "quick"
     cases = jgen.corpus(ck.seed + 9, *((100, 60, 0, 120) if quick else (3000, 1500, 0, 3000)))
@@ -92,6 +144,26 @@ def run(ck):
            for s_, c_ in (("env", "Environment"), ("sbx", "SandboxedEnvironment"), ("imm", "ImmutableSandboxedEnvironment"))
            for h in ("render", "render_async", "generate_async")]
     jrun.conformance(ck, ait, obs, av, fingerprint)
+    # filters the interpreter spec does not model: sync vs async relation over the full filter matrix
+    import random as _r
+    import jinja2 as _j
+    from . import c15_scan as sc
+    progs = sc.programs(_r.Random(ck.seed + 99), _j.Environment().filters, "quick")
+    progs += [{"id": 0, "src": s_, "mode": "html", "tag": "extra"} for s_ in EXTRA_DIFF]
+    nd = 0
+    with ProcessPoolExecutor(max_workers=16) as ex:
+        for mism, n in ex.map(_diff_work, list(core.chunks(progs, 150))):
+            nd += n
+            for m in mism:
+                names = __import__("re").findall(r"\|\s*([a-z_]+)", m["src"])
+                lazy_into_sync = any(a in LAZY_ASYNC and b not in ASYNC_AWARE for a, b in zip(names, names[1:]))
+                ck.violation({"kind": "filter-diff", **{k: str(v) for k, v in m.items()}},
+                             f"sync and async environments differ for {m['src']!r} (autoescape={m['auto']}): sync {str(m['sync'])[:120]} / "
+                             f"async render {str(m['async_render'])[:120]} / render_async {str(m['render_async'])[:120]}",
+                             {"kind": "sync-async-differ", "filter": m["tag"],
+                              "shape": "lazy-into-sync-filter" if lazy_into_sync else "other"})
+    ck.traces += nd
+    ck.extra["filter_matrix_renders_compared_sync_vs_async"] = nd
     # native environments
     sub = [c for c in cases if len(c["tpls"]) == 1][: 150 if quick else 3000]
     total = 0
